@@ -96,6 +96,9 @@ type World struct {
 	Marked    []bitcoin.Hash32 // model of the invalid list (order of marking)
 	Forgot    bool             // memory was reduced by a small-depth prune or a reload
 	MinDepth  int              // smallest prune depth applied so far (0: never pruned)
+	PruneFloor int             // highest "best height - prune depth" over all prunes so far: what lies below may be gone from memory
+	Pruned    bool
+	heightNow int // best height before the operation being applied
 	Removed   []string         // labels removed from the accepted set by marking (with descendants)
 	MarkedLabels []string      // labels currently marked
 	Anomalies []string         // model-level anomalies (accepted header with unaccepted parent, ...)
@@ -166,6 +169,7 @@ func NewWorld(cfg Config) (*World, error) {
 		w.SavedWork = b.Tip.Work
 		w.Tree.SharedTip = b.Tip
 		w.Forgot = true
+		w.heightNow = cfg.Base
 		w.notePrune(10000)
 	} else {
 		w.Store = vstore.New()
@@ -217,6 +221,7 @@ func (w *World) isMarked(h bitcoin.Hash32) bool {
 // Apply performs one operation on the real repository and updates the model.
 func (w *World) Apply(op Op) *Step {
 	st := Step{Op: op, PreTip: w.tipHash()}
+	Safe(func() error { w.heightNow = w.Repo.Height(); return nil })
 	switch op.K {
 	case "sub", "subw":
 		u := Get(op.L)
@@ -394,6 +399,11 @@ func (w *World) notePrune(d int) {
 	if w.MinDepth == 0 || d < w.MinDepth {
 		w.MinDepth = d
 	}
+	height := w.heightNow
+	if !w.Pruned || height-d > w.PruneFloor {
+		w.PruneFloor = height - d
+	}
+	w.Pruned = true
 }
 
 func (w *World) noteSaved() {
@@ -467,5 +477,5 @@ func (w *World) Key() string {
 	}
 	return dump + "|store=" + w.Store.Digest() + "|acc=" + w.AcceptedLabels() + "|marked=" +
 		strings.Join(marked, ",") + "|subs=" + strings.Join(subs, ";") +
-		fmt.Sprintf("|forgot=%t", w.Forgot)
+		fmt.Sprintf("|forgot=%t|floor=%d", w.Forgot, w.PruneFloor)
 }
